@@ -658,7 +658,7 @@ def colliding_id_specs():
 
 
 def run(ctx):
-    n = 150 if ctx.tier == "quick" else 9000
+    n = 400 if ctx.tier == "quick" else 9000
     core.WARM_P = 0.0
     if ctx.replay:
         c = ctx.replay["case"]
